@@ -128,6 +128,8 @@ def define(definer, name, pt, body):
         return '\\gdef\\%s%s{%s}' % (name, ptext, body)
     if definer == 'csdef':
         return '\\expandafter\\def\\csname %s\\endcsname%s{%s}' % (name, ptext, body)
+    if definer == 'csgdef':     # a global definition of a name built with \csname (inside groups: the name is still undefined there)
+        return '\\expandafter\\gdef\\csname %s\\endcsname%s{%s}' % (name, ptext, body)
     nspec = '[%d]' % n if n else ''
     if definer == 'newc':
         return '\\newcommand{\\%s}%s{%s}' % (name, nspec, body)
@@ -143,7 +145,7 @@ def define(definer, name, pt, body):
 
 
 def definers_for(pt, wrapper):
-    ds = ['def', 'gdef', 'csdef']
+    ds = ['def', 'gdef', 'csdef', 'csgdef']
     if pt in UNDELIM_ONLY and wrapper == 'top':
         ds += ['newc', 'newcnb', 'renew']
         if PTS[pt][1] >= 1 and pt != 'p9':
@@ -206,6 +208,8 @@ def family_single(pt, wrapper, full):
             old = define('def', A, pt, body_for('all', n, 'o'))
             if definer in ('newc', 'newcnb', 'newcopt', 'newcopt0', 'renew'):
                 old = ''            # \newcommand does not redefine an existing \def in LaTeX
+            if definer == 'csgdef':
+                old = ''            # the name built by \csname is not defined before (TeX makes it \relax locally)
             if definer in ('newcopt', 'newcopt0'):
                 oldcalls = None
             new = define(definer, A, pt, body_for(tmpl, n, 'n'))
@@ -214,7 +218,7 @@ def family_single(pt, wrapper, full):
                     if via == 'csname' and ci % 3:
                         continue    # \csname calls on every third spelling
                     use = name_use(A, via) + call
-                    after = ':' + use if (old or wrapper == 'top' or definer == 'gdef') else ''
+                    after = ':' + use if (old or wrapper == 'top' or definer in ('gdef', 'csgdef')) else ''
                     if definer in ('newcopt', 'newcopt0') and wrapper != 'top':
                         continue
                     yield PRE + old + wrap(wrapper, new + use) + after, n
